@@ -86,7 +86,7 @@ Definition is_env_op (o : op) : bool :=
   end.
 
 (* ================================================================== allocation clauses *)
-Definition desired_of (count : Z) : nat := if count =? 0 then 1%nat else Z.to_nat count.
+Definition desired_of := desired_count.
 
 (* a device the pod may use and that can take the per-device request, judged on the ledger *)
 Definition eligible_minor (l : ledger) (minors : list nat) (per : res) (m : nat) : bool :=
